@@ -8,7 +8,7 @@ import impl
 
 PID = "C16"
 LEAN_MODULES = ["BtcHd.Props.C16"]
-LEAN_MODULES_THOROUGH = ['BtcHd.Props.TrWallet', 'BtcHd.Props.TrPaper']
+LEAN_MODULES_THOROUGH = ['BtcHd.Props.TrWallet', 'BtcHd.Props.TrPaper', 'BtcHd.Props.TrVersion']
 TRUSTED_BASE = common.CORE_TRUSTED
 ASSUMPTIONS = ["the BIP85 block is governed by C12 (BIP85 fixes mainnet encodings) and is excluded here, see DESIGN §4"]
 RULE = ("both networks x wallets x paths/accounts x every output-producing API (five address kinds, rows, account keys, "
